@@ -131,8 +131,10 @@ class TSeq(TRef):
 
 
 class TExc(TRef):
-    """exception object; class id in $cls"""
-    pass
+    """exception object; class id in $cls; `bound`: the class is some subclass of this (dotted name or repo key)"""
+
+    def __init__(self, bound="BaseException"):
+        self.bound = bound
 
 
 class TTuple(TRef):
